@@ -1053,6 +1053,34 @@ class Ctx:
                 out.append((bb, s, src, dst))
         return out
 
+    def returned_locals(self, body):
+        """ids of the locals whose value is copied / moved / wrapped (Ok(..), Some(..), tuple) into the return place"""
+        seen, work = set(), [0]
+        while work:
+            l = work.pop()
+            if l in seen:
+                continue
+            seen.add(l)
+            for d in body.defs.get(l, []):
+                if d[0] != "assign" or d[3].get("p"):
+                    continue
+                for x in rvalue_locals(d[4]):
+                    work.append(x)
+        return seen
+
+    def resolved_atoms(self, unit, body, op, depth=1):
+        """origin atoms of an operand of a closure / async-block body, with captured variables followed into the
+        bodies of the same unit that define them (by the captured variable's current name)"""
+        at = set(Origins(body, depth).atoms(op))
+        ups = {a[1] for a in at if a[0] == "upvar"}
+        for name in ups:
+            for pb in unit.bodies:
+                if pb is body:
+                    continue
+                for l in pb.locals_named(name):
+                    at |= set(Origins(pb, depth).atoms({"k": "copy", "l": l}))
+        return at
+
     def pspec(self, unit, k):
         """origin specs naming the k-th parameter (1-based, `self` = 1) of a function, valid in the function body and in
         its async-block / closure bodies; the parameter's *current* name is read from the facts, so a rename does not
@@ -1066,9 +1094,9 @@ class Ctx:
             out += [f"upvar:{nm}", f"local:{nm}"]
         return out
 
-    def same_local(self, body, a, b):
-        """do operands a and b denote (a reference to / a move of) the same named local?"""
-        o = Origins(body, 0)
+    def same_local(self, body, a, b, depth=0):
+        """do operands a and b denote (a reference to / a move of / an element taken from) the same named local?"""
+        o = Origins(body, depth)
         la = {v for k, v in o.atoms(a) if k == "local"}
         lb = {v for k, v in o.atoms(b) if k == "local"}
         return bool(la & lb)
